@@ -134,6 +134,156 @@ theorem applySaves_spec (m : Nat) (st : Store σ) (saves : List (Nat × σ)) (hl
       · exact Or.inr (by rw [h']; simp)
     · exact Or.inr (by simp [h])
 
+/-- the save events Orbax accepts: those whose label is newer than everything committed so far -/
+def accepted : Option Nat → List (Nat × σ) → List (Nat × σ)
+  | _, [] => []
+  | none, e :: es => e :: accepted (some e.1) es
+  | some l, e :: es => if e.1 ≤ l then accepted (some l) es else e :: accepted (some e.1) es
+
+theorem keepNewest_append {β : Type} (m : Nat) (a b : List β) :
+    keepNewest m (keepNewest m a ++ b) = keepNewest m (a ++ b) := by
+  unfold keepNewest
+  by_cases h : a.length ≤ m
+  · have : a.length - m = 0 := by omega
+    simp [this]
+  · have hk : a.length - m ≤ a.length := by omega
+    have e1 : (List.drop (a.length - m) a ++ b).length - m = b.length := by simp; omega
+    have e2 : (a ++ b).length - m = (a.length - m) + b.length := by simp; omega
+    rw [e1, e2, ← List.drop_drop, List.drop_append_of_le_length hk]
+
+theorem keepNewest_of_le {β : Type} (m : Nat) (l : List β) (h : l.length ≤ m) : keepNewest m l = l := by
+  unfold keepNewest; have : l.length - m = 0 := by omega
+  simp [this]
+
+theorem keepNewest_getLast {β : Type} (m : Nat) (hm : 1 ≤ m) (l : List β) (x : β) :
+    (keepNewest m (l ++ [x])).getLast? = some x := by
+  unfold keepNewest
+  rw [List.getLast?_drop]
+  simp; omega
+
+theorem latest_after_accept (m : Nat) (hm : 1 ≤ m) (st : Store σ) (e : Nat × σ) :
+    ({ st with steps := keepNewest m (st.steps ++ [e]) } : Store σ).latest = some e.1 := by
+  simp only [Store.latest, Store.labels, List.getLast?_map, keepNewest_getLast m hm, Option.map_some]
+
+/-- **exact retention**: after any sequence of save events the directory holds exactly the `m` most recent of
+    (what it held before) ++ (the accepted save events), in order -/
+theorem applySaves_exact (m : Nat) (hm : 1 ≤ m) (st : Store σ) (saves : List (Nat × σ)) (hlen : st.steps.length ≤ m) :
+    (st.applySaves m saves).steps = keepNewest m (st.steps ++ accepted st.latest saves) := by
+  induction saves generalizing st with
+  | nil => simp [Store.applySaves, accepted, keepNewest_of_le m _ hlen]
+  | cons e es ih =>
+    simp only [Store.applySaves, List.foldl_cons]
+    cases hl : st.latest with
+    | none =>
+      have hs : st.save m e.1 e.2 = { st with steps := keepNewest m (st.steps ++ [e]) } := by simp [Store.save, hl]
+      rw [hs]
+      have := ih ({ st with steps := keepNewest m (st.steps ++ [e]) } : Store σ) (keepNewest_length m _)
+      simp only [Store.applySaves] at this
+      rw [this, latest_after_accept m hm st e]
+      simp only [accepted]
+      rw [keepNewest_append, List.append_assoc]; rfl
+    | some l =>
+      by_cases hle : e.1 ≤ l
+      · have hs : st.save m e.1 e.2 = st := by simp [Store.save, hl, hle]
+        rw [hs]
+        have := ih st hlen
+        simp only [Store.applySaves] at this
+        rw [this, hl]; simp [accepted, hle]
+      · have hs : st.save m e.1 e.2 = { st with steps := keepNewest m (st.steps ++ [e]) } := by simp [Store.save, hl, hle]
+        rw [hs]
+        have := ih ({ st with steps := keepNewest m (st.steps ++ [e]) } : Store σ) (keepNewest_length m _)
+        simp only [Store.applySaves] at this
+        rw [this, latest_after_accept m hm st e]
+        simp only [accepted, hle, if_false]
+        rw [keepNewest_append, List.append_assoc]; rfl
+
+theorem iter_iterState (step : σ → σ × Bool) (iter : σ → Nat) (hinc : ∀ s, iter (step s).1 = iter s + 1) (m : Nat) (s : σ) :
+    iter (iterState step m s) = iter s + m := by
+  induction m generalizing s with
+  | zero => simp [iterState]
+  | succ m ih => rw [iterState_succ, ih, hinc]; omega
+
+/-- every save event of the loop is labelled at most with the iteration the loop ends at -/
+theorem loop_saves_le (step : σ → σ × Bool) (iter : σ → Nat) (hinc : ∀ s, iter (step s).1 = iter s + 1)
+    (f k : Nat) (s : σ) (n : Nat) (sv : List (Nat × σ)) :
+    ∀ e ∈ (loopBody step iter f k s n sv).saves, e ∈ sv ∨ e.1 ≤ iter (loopBody step iter f k s n sv).state := by
+  induction k generalizing s n sv with
+  | zero => intro e he; left; simpa [loopBody] using he
+  | succ k ih =>
+    intro e he
+    simp only [loopBody] at he ⊢
+    split at he
+    · rename_i hd; rw [if_pos hd]; left; exact he
+    · rename_i hd
+      rw [if_neg hd]
+      rcases ih _ _ _ e he with h | h
+      · split at h
+        · rcases List.mem_append.mp h with h' | h'
+          · left; exact h'
+          · right
+            simp only [List.mem_singleton] at h'
+            obtain ⟨m, _, _, h3, _⟩ := loopBody_spec step iter f k (step s).1 (n + 1)
+              (if f ≠ 0 ∧ iter (step s).1 % f = 0 then sv ++ [(iter (step s).1, (step s).1)] else sv)
+            rw [h3, iter_iterState step iter hinc, h']; simp
+        · left; exact h
+      · right; exact h
+
+theorem latest_applySaves (m : Nat) (hm : 1 ≤ m) (st : Store σ) (saves : List (Nat × σ)) (N : Nat)
+    (hst : ∀ l, st.latest = some l → l ≤ N) (hall : ∀ e ∈ saves, e.1 ≤ N) (hlast : saves.getLast?.map (·.1) = some N) :
+    (st.applySaves m saves).latest = some N := by
+  induction saves generalizing st with
+  | nil => simp at hlast
+  | cons e es ih =>
+    simp only [Store.applySaves, List.foldl_cons]
+    have hst' : ∀ l, (st.save m e.1 e.2).latest = some l → l ≤ N := by
+      intro l hl
+      unfold Store.save at hl
+      split at hl
+      · rename_i l0 hl0
+        split at hl
+        · exact hst l hl
+        · rw [latest_after_accept m hm st e] at hl; cases hl; exact hall e (by simp)
+      · rw [latest_after_accept m hm st e] at hl; cases hl; exact hall e (by simp)
+    cases es with
+    | nil =>
+      simp only [List.foldl_nil]
+      simp at hlast
+      unfold Store.save
+      split
+      · rename_i l0 hl0
+        split
+        · rename_i hle
+          have := hst l0 hl0
+          rw [hl0]; congr 1; omega
+        · rw [latest_after_accept m hm st e, hlast]
+      · rw [latest_after_accept m hm st e, hlast]
+    | cons e2 es2 =>
+      have := ih (st.save m e.1 e.2) hst' (fun x hx => hall x (by simp [hx])) (by simpa using hlast)
+      simpa [Store.applySaves] using this
+
+/-- **the last iteration of the most recent `solve()` call is always the newest checkpoint in the directory** (frequency > 0,
+    retention ≥ 1), provided the directory holds nothing newer than the state the call started from -/
+theorem final_iteration_retained (m : Nat) (hm : 1 ≤ m) (f : Nat) (hf : f ≠ 0) (st : Store σ)
+    (step : σ → σ × Bool) (iter : σ → Nat) (finish : Bool → σ → σ) (hinc : ∀ s, iter (step s).1 = iter s + 1)
+    (k : Nat) (s : σ) (hst : ∀ l, st.latest = some l → l ≤ iter s) :
+    (st.applySaves m (solveCall step iter finish f k s).saves).latest = some (iter (solveLoop step iter f k s).state) := by
+  have hstate : (solveLoop step iter f k s).state = (loopBody step iter f k s 0 []).state := by simp [solveLoop]
+  obtain ⟨mm, _, _, h3, _⟩ := loopBody_spec step iter f k s 0 []
+  have hN : iter (loopBody step iter f k s 0 []).state = iter s + mm := by rw [h3, iter_iterState step iter hinc]
+  apply latest_applySaves m hm st _ _
+  · intro l hl; have := hst l hl; rw [hstate, hN]; omega
+  · intro e he
+    simp only [solveCall, solveLoop, if_pos hf] at he
+    rcases List.mem_append.mp he with h | h
+    · rcases loop_saves_le step iter hinc f k s 0 [] e h with h' | h'
+      · simp at h'
+      · rw [hstate]; exact h'
+    · simp only [List.mem_singleton] at h; rw [h, hstate]; exact Nat.le_refl _
+  · rw [final_always_saved step iter finish f k hf s]; simp
+
+/-- non-vacuity of `applySaves_exact`: the accepted events of 2,4,5,5 are 2,4,5 -/
+example : accepted (none : Option Nat) [(2, 20), (4, 40), (5, 50), (5, 51)] = [(2, 20), (4, 40), (5, 50)] := by decide
+
 /-! non-vacuity: frequency 2, retention 2, labels 2,4,5,5 into an empty store leaves 4 and 5 -/
 example : ((({} : Store Nat).applySaves 2 [(2, 20), (4, 40), (5, 50), (5, 51)]).steps) = [(4, 40), (5, 50)] := by decide
 
